@@ -1667,9 +1667,14 @@ func (env *LEnv) funCall(ctx context.Context, fun, args *LVal) *LVal {
 	defer env.Runtime.Stack.Pop()
 
 	if npop > 0 {
-		return markTailRec(npop, fun, args)
+		return markTailRec(npop, fun, args, env.loc)
 	}
 
+	// A tail call that re-enters below is made at its own position: an error
+	// of that call (its arguments do not fit the function) is located at the
+	// call expression that was eliminated, not at the call that opened the
+	// loop.  The caller's location is put back when funCall returns.
+	relocated := false
 callf:
 	r := env.call(ctx, fun, args)
 	if r == nil {
@@ -1708,6 +1713,12 @@ callf:
 				return lerr
 			}
 			fun, args = extractMarkTailRec(r)
+			if !relocated {
+				relocated = true
+				callerLoc := env.loc
+				defer func() { env.loc = callerLoc }()
+			}
+			env.loc = r.source
 			goto callf
 		}
 	}
